@@ -26,7 +26,7 @@ import (
 var Check = &mc.Check{
 	ID:    "C04",
 	Level: "model_checking",
-	Rule: "handler programs = status{101,200,204,206,301,304,404,500} x body API{none, SetBody, Append+Write, SetBodyStream(len), SetBodyStream(-1), SetBodyStream(LimitedReader,-1) with readers delivering all/1-byte/4096, hijacked chunked writer with every pattern of <=3 ops over {Write0,Write1,Write4096,Flush}} x size{0,1,4095,4096,4097,8191,8192,8193} x trailer x ImmediateHeaderFlush x handler SetConnectionClose; " +
+	Rule: "handler programs = status{101,200,204,206,301,304,404,500} x body API{none, SetBody, Append+Write, SetBodyStream(len), SetBodyStream(-1), SetBodyRaw, SetBodyStream(LimitedReader,-1) with readers delivering all/1-byte/4096, hijacked chunked writer with every pattern of <=3 ops over {Write0,Write1,Write4096,Flush}} x size{0,1,4095,4096,4097,8191,8192,8193} x trailer x ImmediateHeaderFlush x handler SetConnectionClose; ; a body API called first and then overridden by another one (SetBody / SetBodyRaw / stream of known / unknown length before any body API); all ordered triples over 7 small programs on one keep-alive connection with GET or HEAD last" +
 		"requests = method{GET,POST,HEAD} x {1.1, 1.1+close, 1.0, 1.0+keep-alive}; singles: full product (pruned of meaningless combinations); pairs: all ordered pairs over a reduced program set on one connection; " +
 		"non-trivial = programs with a body API other than none",
 	Run:         run,
@@ -86,6 +86,9 @@ type Prog struct {
 	StatusLast bool `json:"status_last,omitempty"`
 	// LimitExtra: BStreamLimited only - the LimitedReader's N is Size+LimitExtra ("at most N"), the reader ends after Size bytes
 	LimitExtra int `json:"limit_extra,omitempty"`
+	// Pre: a body API the handler calls first (with other data) and then overrides with Body - a handler that changes its
+	// mind, e.g. an error after the stream was set up. One of BSetBody, BRaw, BStreamLen, BStreamChunked; 0 = none.
+	Pre int `json:"pre,omitempty"`
 }
 
 type Req struct {
@@ -211,6 +214,19 @@ func (p Prog) run(ctx *app.RequestContext, salt byte) {
 			ctx.SetStatusCode(p.Status)
 		}
 	}()
+	if p.Pre != 0 {
+		other := payload(p.Size+9, salt+77)
+		switch p.Pre {
+		case BSetBody:
+			ctx.Response.SetBody(other)
+		case BRaw:
+			ctx.Response.SetBodyRaw(other)
+		case BStreamLen:
+			ctx.SetBodyStream(&chunkReader{b: other}, len(other))
+		case BStreamChunked:
+			ctx.SetBodyStream(&chunkReader{b: other}, -1)
+		}
+	}
 	switch p.Body {
 	case BString:
 		ctx.String(p.Status, "%s", data)
@@ -468,6 +484,16 @@ func programs(thorough bool) []Prog {
 			if st == 404 {
 				out = append(out, Prog{Status: st, Body: BNotFound, Close: cl})
 			}
+			for _, pre := range []int{BSetBody, BRaw, BStreamLen, BStreamChunked} {
+				for _, b := range []int{BSetBody, BRaw, BString, BData, BStreamLen, BStreamChunked, BAppendWrite} {
+					if (b == BAppendWrite || b == BString || b == BData) && (pre == BSetBody || pre == BRaw) {
+						continue // these append (ctx.Write underneath): appending to a body is not overriding it
+					}
+					for _, n := range []int{0, 5, 4097} {
+						out = append(out, Prog{Status: st, Body: b, Size: n, Close: cl, Pre: pre})
+					}
+				}
+			}
 			for _, n := range []int{0, 1, 5, 4097} {
 				for _, b := range []int{BSetBody, BAppendWrite, BStreamLen, BStreamChunked, BStreamLimited} {
 					out = append(out, Prog{Status: st, Body: b, Size: n, Close: cl, StatusLast: true})
@@ -541,6 +567,8 @@ func reducedProgs() []Prog {
 		{Status: 204, Body: BStreamLen, Size: 5, StatusLast: true},
 		{Status: 200, Body: BHijack, Ops: "rr"},
 		{Status: 200, Body: BRaw, Size: 23},
+		{Status: 200, Body: BSetBody, Size: 5, Pre: BStreamChunked},
+		{Status: 200, Body: BStreamLen, Size: 3, Pre: BStreamChunked},
 	}
 }
 
